@@ -205,4 +205,79 @@ theorem iter_prefix_of_linearizable (hist : List Done) (σ0 σ' : Spec)
     rw [this, List.drop_zero]
     exact List.take_prefix _ _
 
+theorem step_ext {F : Facts} {t : Nat} {s s2 s' : State} {ext : Nat → List Op}
+    (h : ExtBy ext s s2) (hs : step F t s = some s') :
+    ∃ s2', step F t s2 = some s2' ∧ ExtBy ext s' s2' := by
+  obtain ⟨hc, hh, ht, hsp, hth⟩ := h
+  unfold step at hs ⊢
+  simp only [hth t, hc, hh, ht, hsp]
+  by_cases hhalt : (s.threads t).halted = true
+  · simp [hhalt] at hs
+  · simp only [hhalt] at hs ⊢
+    cases hp : (s.threads t).prog with
+    | nil => simp [hp] at hs
+    | cons op rest =>
+      simp only [hp, List.cons_append] at hs ⊢
+      cases ho : opStep F t s.cells (s.threads t).ptr (s.threads t).acc op (s.threads t).pc with
+      | none => simp [ho] at hs
+      | some o =>
+        simp only [ho] at hs ⊢
+        cases hn : o.next with
+        | cont =>
+          simp only [hn] at hs ⊢
+          injection hs with hs; subst hs
+          refine ⟨_, rfl, rfl, rfl, rfl, rfl, ?_⟩
+          intro u
+          by_cases hu : u = t
+          · subst hu; simp [upd]
+          · simp [upd, hu, hth u]
+        | done r =>
+          simp only [hn] at hs ⊢
+          injection hs with hs; subst hs
+          refine ⟨_, rfl, rfl, rfl, rfl, rfl, ?_⟩
+          intro u
+          by_cases hu : u = t
+          · subst hu; simp [upd]
+          · simp [upd, hu, hth u]
+        | trap =>
+          simp only [hn] at hs ⊢
+          injection hs with hs; subst hs
+          refine ⟨_, rfl, rfl, rfl, rfl, rfl, ?_⟩
+          intro u
+          by_cases hu : u = t
+          · subst hu; simp [upd]
+          · simp [upd, hu, hth u]
+
+theorem run_ext {F : Facts} {ext : Nat → List Op} (sched : List Nat) :
+    ∀ {s s2 s' : State}, ExtBy ext s s2 → run F s sched = some s' →
+      ∃ s2', run F s2 sched = some s2' ∧ ExtBy ext s' s2' := by
+  induction sched with
+  | nil => intro s s2 s' h hr; simp only [run] at hr ⊢; injection hr with hr; subst hr; exact ⟨s2, rfl, h⟩
+  | cons t rest ih =>
+    intro s s2 s' h hr
+    simp only [run] at hr ⊢
+    cases hs : step F t s with
+    | none => simp [hs] at hr
+    | some s1 =>
+      simp only [hs] at hr
+      obtain ⟨s21, h21, he⟩ := step_ext h hs
+      simp only [h21]
+      exact ih he hr
+
+theorem extendProgs_getD (progs : List (List Op)) (more : Nat → List Op) (t : Nat) :
+    (extendProgs progs more).getD t [] =
+      progs.getD t [] ++ (if t < progs.length then more t else []) := by
+  unfold extendProgs
+  by_cases ht : t < progs.length
+  · simp [List.getD, ht]
+  · simp [List.getD, ht]
+
+theorem init_ext (lists : List (List Nat)) (progs : List (List Op)) (more : Nat → List Op) :
+    ExtBy (fun t => if t < progs.length then more t else [])
+      (init lists progs) (init lists (extendProgs progs more)) := by
+  refine ⟨?_, rfl, rfl, rfl, ?_⟩
+  · simp [init, extendProgs]
+  · intro t
+    simp only [init, extendProgs_getD]
+
 end RotoV.ListConc
